@@ -923,3 +923,6 @@ func GenKey(t *rapid.T, cfg GenCfg) *Node {
 	g := &G{t: t, cfg: cfg}
 	return g.key()
 }
+
+// RegexBodies returns the pool of regular expression bodies (for enumerations).
+func RegexBodies() []string { return append([]string(nil), regexPool...) }
